@@ -95,6 +95,45 @@ func (c c06case) String() string {
 	return fmt.Sprintf("mem=%d size=%d chunk=%d method=%s headers#%d retry=Attempts()<%d scripts=%v", c.mem, c.size, c.chunk, c.method, c.hs, c.k, c.scripts)
 }
 
+// One long-lived Buffer per (memory threshold, retry depth, verbose) serves every case with that configuration,
+// one after the other: whatever an exchange leaves behind in the middleware (a reused object, a cached value)
+// meets the next case's oracle. The handler behind it is swapped per case.
+type c06instance struct {
+	b   *buffer.Buffer
+	cur http.Handler
+}
+
+var c06instances = map[string]*c06instance{}
+
+// position of the running case (recorded with a violation so that a replay can re-run the same prefix)
+var c06pos struct {
+	tier  string
+	shard lib.Shard
+	index int
+}
+
+func c06instanceFor(c c06case) (*c06instance, error) {
+	key := fmt.Sprintf("%d/%d/%v", c.mem, c.k, verboseRun)
+	if in, ok := c06instances[key]; ok {
+		return in, nil
+	}
+	in := &c06instance{}
+	opts := []buffer.Option{buffer.MemRequestBodyBytes(int64(c.mem)), buffer.Retry(fmt.Sprintf("Attempts() < %d", c.k))}
+	if c.mem == 0 {
+		opts = opts[1:]
+	}
+	if verboseRun {
+		opts = append(opts, buffer.Verbose(true), buffer.Logger(lib.FormatLogger{}))
+	}
+	b, err := buffer.New(http.HandlerFunc(func(w http.ResponseWriter, r *http.Request) { in.cur.ServeHTTP(w, r) }), opts...)
+	if err != nil {
+		return nil, err
+	}
+	in.b = b
+	c06instances[key] = in
+	return in, nil
+}
+
 func runC06(c c06case, rep *lib.Report) {
 	body := bodyOf(c.size)
 	raw := lib.RawRequest(c.method, "/p/a%20b?x=1&y=%2F", headerSets[c.hs], body, c.chunk)
@@ -154,22 +193,18 @@ func runC06(c c06case, rep *lib.Report) {
 		w.WriteHeader(200)
 		w.Write([]byte("ok"))
 	})
-	opts := []buffer.Option{buffer.MemRequestBodyBytes(int64(c.mem)), buffer.Retry(fmt.Sprintf("Attempts() < %d", c.k))}
-	if c.mem == 0 {
-		opts = opts[1:]
-	}
-	if verboseRun {
-		opts = append(opts, buffer.Verbose(true), buffer.Logger(lib.FormatLogger{}))
-	}
-	b, err := buffer.New(h, opts...)
+	in, err := c06instanceFor(c)
 	if err != nil {
 		rep.DistrustF("buffer.New: %v", err)
 		return
 	}
+	in.cur = h
+	b := in.b
 	rec := lib.Serve(b, req)
 	rep.Evaluations++
 	what := func() map[string]any {
-		return map[string]any{"engine": "enum", "part": "c06", "mem": c.mem, "size": c.size, "chunk": c.chunk, "method": c.method, "headers": c.hs, "k": c.k, "scripts": fmt.Sprint(c.scripts), "case": c.String(), "verbose": verboseRun}
+		return map[string]any{"engine": "enum", "part": "c06", "mem": c.mem, "size": c.size, "chunk": c.chunk, "method": c.method, "headers": c.hs, "k": c.k, "scripts": fmt.Sprint(c.scripts), "case": c.String(), "verbose": verboseRun,
+			"tier": c06pos.tier, "shard": fmt.Sprintf("%d/%d", c06pos.shard.I, c06pos.shard.N), "index": c06pos.index}
 	}
 	framing := "content-length"
 	if c.chunk > 0 {
@@ -270,7 +305,7 @@ func c06cases(tier string) []c06case {
 func RunC06(tier string, sh lib.Shard, rep *lib.Report) {
 	cases := c06cases(tier)
 	rep.Bounds["cases"] = len(cases)
-	rep.Rule = "full product memory threshold {8,64,default 1MiB} x body length {0,1,mem-1,mem,mem+1,3mem, ~1MiB(+)} x framing {Content-Length, chunked 1/7/whole, unknown length without chunking (HTTP/2 stream)} x method x header set x retry depth {1,2,3} x per-failed-attempt script (bytes consumed {0,half,all} x 8 request mutations); request parsed by http.ReadRequest from raw bytes, real buffer.ServeHTTP; every invocation's method/URL/headers/ContentLength/TransferEncoding/body compared with the client's original; every fifth case again with Verbose(true) and a formatting logger; non-trivial = cases with at least one retry or a spilled body"
+	rep.Rule = "full product memory threshold {8,64,default 1MiB} x body length {0,1,mem-1,mem,mem+1,3mem, ~1MiB(+)} x framing {Content-Length, chunked 1/7/whole, unknown length without chunking (HTTP/2 stream)} x method x header set x retry depth {1,2,3} x per-failed-attempt script (bytes consumed {0,half,all} x 8 request mutations); request parsed by http.ReadRequest from raw bytes, real buffer.ServeHTTP on long-lived Buffer instances (one per threshold x retry depth, serving all its cases in sequence); every invocation's method/URL/headers/ContentLength/TransferEncoding/body compared with the client's original; every fifth case again with Verbose(true) and a formatting logger; non-trivial = cases with at least one retry or a spilled body"
 	rep.Require("requests_spilled_to_disk", "cases_with_retries", "cases_rerun_verbose")
 	for i, c := range cases {
 		if !sh.Mine(i) {
@@ -280,6 +315,7 @@ func RunC06(tier string, sh lib.Shard, rep *lib.Report) {
 			rep.Exhaustive = false
 			break
 		}
+		c06pos.tier, c06pos.shard, c06pos.index = tier, sh, i
 		runC06(c, rep)
 		if i%9973 == 0 {
 			rep.Sample(4, c.String())
@@ -296,6 +332,47 @@ func RunC06(tier string, sh lib.Shard, rep *lib.Report) {
 
 func ReplayC06(rp map[string]any) (bool, string) {
 	want, _ := rp["case"].(string)
+	if idx, ok := rp["index"].(float64); ok {
+		// re-run, on fresh long-lived instances, exactly the cases this worker had run up to the failing one
+		tier, _ := rp["tier"].(string)
+		shs, _ := rp["shard"].(string)
+		sh := lib.ParseShard(shs)
+		c06instances = map[string]*c06instance{}
+		key, _ := rp["key"].(string)
+		var last *lib.Report
+		for i, c := range c06cases(tier) {
+			if i > int(idx) {
+				break
+			}
+			if !sh.Mine(i) {
+				continue
+			}
+			last = lib.NewReport("C06", "replay")
+			c06pos.tier, c06pos.shard, c06pos.index = tier, sh, i
+			verboseRun = false
+			runC06(c, last)
+			if i%5 == 0 {
+				vr := lib.NewReport("C06", "replay")
+				verboseRun = true
+				runC06(c, vr)
+				verboseRun = false
+				if i == int(idx) && rp["verbose"] == true {
+					last = vr
+				}
+			}
+		}
+		if last != nil {
+			for _, v := range last.Violations {
+				if v.Key == key {
+					return true, v.Key + " :: " + v.Detail
+				}
+			}
+			if len(last.Violations) > 0 {
+				return true, last.Violations[0].Key + " :: " + last.Violations[0].Detail
+			}
+		}
+		return false, "every attempt saw the client's exact request"
+	}
 	for _, tier := range []string{"quick", "thorough"} {
 		for _, c := range c06cases(tier) {
 			if c.String() == want {
